@@ -16,6 +16,7 @@
     is never a message creator / bank sender / configured funder (it has no key). *)
 From Coq Require Import List ZArith Bool String.
 From Paloma Require Import Base.Dec Paloma.LightNode Paloma.LightNodeProofs.
+From Paloma Require Import Paloma.CalendarProofs Paloma.LightNodeExt Paloma.LightNodeExtProofs.
 From Paloma Require Gen.C18.
 Import ListNotations.
 Open Scope Z_scope.
@@ -152,6 +153,192 @@ Theorem refused_operation_changes_nothing : forall (s : state) (o : op),
   snd (step s o) <> Ok -> fst (step s o) = s.
 Proof. exact failed_op_is_noop. Qed.
 Print Assumptions refused_operation_changes_nothing.
+
+(** ======================= second round =======================
+    Reading aid.  [add_months t k] is Go's [time.Unix(t,0).UTC().AddDate(0,k,0).Unix()].
+    [xstep] extends [step]: [XOp o] is [o]; [XFault n kd o] is [o] with the n-th call the keeper
+    makes through its AccountKeeper / BankKeeper / FeegrantKeeper interfaces failing (kd = FErr: an
+    error where the method can return one, FPanic: a panic); [XSetLegacy n kd] is
+    MsgSetLegacyLightNodeClients; [XGenesis] is ExportGenesis + InitGenesis on a wiped x/paloma store.
+    [create_licence_f] / [activate_f] / [sale_licence_f] are the RAW keeper functions (no message
+    or attestation wrapper) with the fault; [fstep] is the operation as the chain runs it.
+    [xinv s] = [inv s] and "funders is not the empty list" (an empty list is stored as absent).
+    [inv_sched s]: block time >= 0, licences have months >= 0, vesting accounts have 0 <= start <= end;
+    true of [init t0 b] for t0 >= 0.  [xop_typed]: VestingMonths of a message is a uint32.
+    [try_sale] is attestationTally/TryAttestation/processAttestation around the sale handler inside
+    skyway's EndBlocker, once the votes suffice; [oracle] = (last observed nonce per chain, observed set). *)
+
+(** The calendar.  k calendar months after any instant lie between 28*k and 31*k days later, at the
+    same time of day — for every instant and every k >= 0 (Gregorian leap rules, Go's overflow of
+    the day of the month into the next month included).  So start <= end needs no side condition. *)
+Theorem calendar_months_forward : forall (t k : Z), 0 <= k ->
+  t + 28 * 86400 * k <= add_months t k <= t + 31 * 86400 * k /\ add_months t k mod 86400 = t mod 86400.
+Proof. exact (fun t k H => conj (add_months_forward t k H) (add_months_clock t k)). Qed.
+Print Assumptions calendar_months_forward.
+
+Theorem calendar_round_trip : forall (z : Z),
+  let '(y, m, d) := civil_from_days z in days_from_civil y m d = z.
+Proof. exact civil_round_trip. Qed.
+Print Assumptions calendar_round_trip.
+
+(** Clause 4, the period: a successful activation sets the end of vesting [months] calendar months
+    after the block time, i.e. 28..31 days per month later, same time of day. *)
+Theorem activation_period : forall (s s' : state) (who : key),
+  acct s escrow = Some Module -> step s (Register who) = (s', Ok) ->
+  exists l en, lic_get (lics s) who = Some l /\
+    acct s' (fst who) = Some (Vesting (now s) en (l_amount l) (l_denom l)) /\
+    en = add_months (now s) (l_months l) /\ en mod 86400 = now s mod 86400 /\
+    (0 <= l_months l ->
+       now s + 28 * 86400 * l_months l <= en <= now s + 31 * 86400 * l_months l).
+Proof. exact activation_period_thm. Qed.
+Print Assumptions activation_period.
+
+(** ... in every reachable state (faults, legacy imports, genesis round trips included) every
+    vesting account has 0 <= start <= end, and the "end time cannot be negative" refusal of
+    BaseVestingAccount.Validate never happens. *)
+Theorem vesting_schedules_forward : forall (s0 : state) (xs : list xop),
+  inv_struct s0 -> funders s0 <> Some [] -> inv_sched s0 -> Forall xop_typed xs ->
+  let s := xrun s0 xs in
+  forall a st en o d, acct s a = Some (Vesting st en o d) -> 0 <= st <= en.
+Proof. exact vesting_schedules_forward_thm. Qed.
+Print Assumptions vesting_schedules_forward.
+
+Theorem vesting_error_unreachable : forall (s : state) (who : key),
+  inv_struct s -> inv_sched s -> snd (step s (Register who)) <> Err EVesting.
+Proof. exact vesting_error_unreachable_thm. Qed.
+Print Assumptions vesting_error_unreachable.
+
+(** Collaborator faults, transaction level.  Whichever call fails and however (error or panic):
+    the operation either ran exactly as without the fault (the call was not reached) or was refused
+    and changed nothing; a fault index <= 0 is no fault. *)
+Theorem faulted_operation_all_or_nothing : forall (kd : fkind) (n : Z) (s : state) (o : op),
+  (fstep kd n s o = step s o \/ (fst (fstep kd n s o) = s /\ snd (fstep kd n s o) <> Ok)) /\
+  (n <= 0 -> fstep kd n s o = step s o).
+Proof. exact (fun kd n s o => conj (fstep_dichotomy kd n s o) (fstep_nofault kd n s o)). Qed.
+Print Assumptions faulted_operation_all_or_nothing.
+
+Theorem refused_extended_operation_changes_nothing : forall (s : state) (x : xop),
+  snd (xstep s x) <> Ok -> fst (xstep s x) = s.
+Proof. exact xstep_refused_noop. Qed.
+Print Assumptions refused_extended_operation_changes_nothing.
+
+(** Collaborator faults, raw keeper level: what the three functions leave behind on the branch they
+    ran on when they fail — exactly.  Licence creation: nothing, or the new base account and nothing
+    else, the latter precisely when all guards passed and the payment failed (by itself or injected). *)
+Theorem raw_creation_leftovers : forall (kd : fkind) (n : Z) (cr cl : key) (d : denom) (amt m : Z) (s : state),
+  let r := fst (create_licence_f kd n cr cl d amt m s) in
+  snd r <> Ok ->
+  (fst r = s /\ (snd r = Panic \/ snd r = Err EInvalidAddr \/ snd r = Err EInvalidParams \/
+                 snd r = Err ELicenseExists \/ snd r = Err EAccountExists)) \/
+  (fst r = base_added s (fst cl) /\ fst r <> s /\
+   acct s (fst cl) = None /\ lic_get (lics s) cl = None /\ str_valid cr = true /\ str_valid cl = true /\
+   (snd r = injected kd \/
+    exists e, snd r = Err e /\ send (base_added s (fst cl)) (fst cr) escrow d amt = inr e)).
+Proof. exact create_leftovers. Qed.
+Print Assumptions raw_creation_leftovers.
+
+(** Activation: nothing, or the account already turned into the vesting account without the coins. *)
+Theorem raw_activation_leftovers : forall (kd : fkind) (n : Z) (who : key) (s : state),
+  let r := fst (activate_f kd n who s) in
+  snd r <> Ok ->
+  fst r = s \/
+  (exists l, lic_get (lics s) who = Some l /\ acct s (fst who) = Some Base /\
+     fst r = vesting_set s (fst who) l /\
+     (snd r = injected kd \/ (snd r = Err EUnauthorized /\ fst who = escrow) \/
+      exists e, snd r = Err e /\ send (vesting_set s (fst who) l) escrow (fst who) (l_denom l) (l_amount l) = inr e)).
+Proof. exact activate_leftovers. Qed.
+Print Assumptions raw_activation_leftovers.
+
+(** Sale: nothing, the bare base account, or the complete paid licence without its fee grant. *)
+Theorem raw_sale_leftovers : forall (kd : fkind) (n : Z) (client : key) (amount : Z) (s : state),
+  let r := fst (sale_licence_f kd n client amount s) in
+  snd r <> Ok ->
+  fst r = s \/ fst r = base_added s (fst client) \/
+  (exists f, create_licence_raw (f, false) client bond (amount * Gen.C18.sale_multiplier)
+                                Gen.C18.sale_vesting_months s = (fst r, Ok)).
+Proof. exact sale_leftovers. Qed.
+Print Assumptions raw_sale_leftovers.
+
+(** Clauses 1-3 over histories that contain faults at any call of any operation, legacy-client
+    imports and genesis round trips. *)
+Theorem escrow_covers_licences_under_faults : forall (s0 : state) (xs : list xop),
+  xinv s0 -> Forall xop_wf xs ->
+  let s := xrun s0 xs in
+  (forall d, bal s escrow d = lic_sum d (lics s) + gifts s d /\
+             lic_sum d (lics s) <= bal s escrow d /\
+             gifts s0 d <= gifts s d /\
+             (gifts s d = 0 -> bal s escrow d = lic_sum d (lics s))) /\
+  NoDup (lic_ids (lics s)) /\
+  (forall k l, In (k, l) (lics s) -> acct s (fst k) = Some Base /\ 0 < l_amount l).
+Proof. exact escrow_under_faults_thm. Qed.
+Print Assumptions escrow_covers_licences_under_faults.
+
+Theorem activation_once_under_faults : forall (xs : list xop) (s0 : state) (a : addr),
+  inv_struct s0 -> funders s0 <> Some [] ->
+  (List.length (filter (xactivation_of a) (xtrace s0 xs)) <= 1)%nat.
+Proof. exact activation_once_x_thm. Qed.
+Print Assumptions activation_once_under_faults.
+
+Theorem licence_untouched_by_other_extended_operations : forall (s : state) (x : xop) (k : key) (l : licence),
+  inv_struct s -> funders s <> Some [] ->
+  lic_get (lics s) k = Some l -> xop_base x <> Some (Register k) ->
+  lic_get (lics (fst (xstep s x))) k = Some l.
+Proof. exact licence_persists_x. Qed.
+Print Assumptions licence_untouched_by_other_extended_operations.
+
+(** MsgSetLegacyLightNodeClients touches client records only: it changes nothing, or adds records
+    (never alters one) dated now for grantees of the fee granter without record and without licence. *)
+Theorem legacy_import_effect : forall (n : Z) (kd : fkind) (s : state),
+  let r := xstep s (XSetLegacy n kd) in
+  ((fst r = s /\ (snd r <> Ok \/ feegranter s = None)) \/
+   (snd r = Ok /\ exists g, feegranter s = Some g /\ fst r = set_clients s (legacy_clients s g))) /\
+  (forall g k c, clients s k = Some c -> legacy_clients s g k = Some c) /\
+  (forall g k c, clients s k = None -> legacy_clients s g k = Some c ->
+     c = (now s, now s) /\ snd k = false /\ str_valid k = true /\ grants s g (fst k) = true /\
+     lic_get (lics s) k = None).
+Proof. exact (fun n kd s => conj (set_legacy_effect n kd s) (conj (legacy_keeps s) (legacy_new s))). Qed.
+Print Assumptions legacy_import_effect.
+
+(** Genesis: exporting and importing gives back the same state; in a hand-written file the last
+    entry per address string wins (nothing else is checked: Example ex_unchecked_genesis). *)
+Theorem genesis_export_import_identity : forall (s : state),
+  NoDup (lic_ids (lics s)) -> funders s <> Some [] -> init_genesis (export_genesis s) s = s.
+Proof. exact genesis_round_trip. Qed.
+Print Assumptions genesis_export_import_identity.
+
+Theorem genesis_last_entry_wins : forall (l : list (key * licence)) (k : key),
+  lic_get (import_lics l) k = lic_get (rev l) k.
+Proof. exact import_get. Qed.
+Print Assumptions genesis_last_entry_wins.
+
+(** The sale inside the attestation machinery.  Once the votes suffice, the attestation is marked
+    observed and the nonce cursor moved BEFORE the handler runs, on the end blocker's own context;
+    the handler's writes live on a cache context.  Whatever the handler does (success, error,
+    panic) the effect on licences / accounts / coins / grants is exactly the [Sale] step ... *)
+Theorem attested_sale_effect : forall (chain nonce contract : Z) (client : key) (amount : Z) (o : oracle) (s : state),
+  nonce = o_last o chain + 1 ->
+  snd (fst (try_sale chain nonce contract client amount (o, s))) = fst (step s (Sale chain contract client amount)) /\
+  fst (fst (try_sale chain nonce contract client amount (o, s))) = oracle_advance o chain nonce.
+Proof. exact (fun c n ct cl a o s H => conj (try_sale_core c n ct cl a o s H) (try_sale_cursor c n ct cl a o s H)). Qed.
+Print Assumptions attested_sale_effect.
+
+(** ... a claim from the authorised contract with a negative amount or one >= 2^256/10^6 makes the
+    handler panic: recovered by the end blocker, nothing of the handler written, the event consumed ... *)
+Theorem attested_sale_hostile_amount : forall (chain nonce contract : Z) (client : key) (amount : Z) (o : oracle) (s : state),
+  nonce = o_last o chain + 1 -> contracts s chain = Some contract ->
+  amount < 0 \/ two256 <= amount * Gen.C18.sale_multiplier ->
+  try_sale chain nonce contract client amount (o, s) = ((oracle_advance o chain nonce, s), Panic).
+Proof. exact try_sale_hostile_amount. Qed.
+Print Assumptions attested_sale_hostile_amount.
+
+(** ... and no event is handled twice. *)
+Theorem attested_sale_not_repeated : forall (chain nonce contract : Z) (client : key) (amount : Z)
+    (contract' : Z) (client' : key) (amount' : Z) (a : oracle * state),
+  let a1 := fst (try_sale chain nonce contract client amount a) in
+  nonce = o_last (fst a) chain + 1 ->
+  try_sale chain nonce contract' client' amount' a1 = (a1, Err ENotFound).
+Proof. exact try_sale_not_repeated. Qed.
+Print Assumptions attested_sale_not_repeated.
 
 (** The model is the model of the source as it is now: constants, the order of the effect-bearing
     calls in the three keeper functions and in the sale handler, the expressions that fix the
